@@ -458,6 +458,26 @@ def _spec_wires(o):
     return []
 
 
+def _extra_objects():
+    """Linear combinations whose operands carry 0, 1, 2 and 3 parameters in every position (the rebinding cursor must
+    advance by the operand's own parameter count) — local to this check, not part of the shared catalogue."""
+    import itertools
+
+    sk, OP, OPS, P, W = cat.sk, cat.OP, cat.OPS, cat.P, cat.W
+    leaf = lambda name, *p, wires: sk(name, name, *[P(i) for i in range(len(p))], p=p, wires=W(wires))
+    terms = {
+        "p0": lambda w: leaf("PauliZ", wires=[w]),
+        "p1": lambda w: leaf("RX", 0.3, wires=[w]),
+        "p2": lambda w: sk("Prod", "prod", OP(leaf("RX", 0.4, wires=[w])), OP(leaf("RY", -1.1, wires=[w]))),
+        "p3": lambda w: leaf("Rot", 0.2, 0.5, -0.7, wires=[w]),
+    }
+    out = []
+    for combo in itertools.permutations(("p0", "p1", "p2", "p3"), 3):
+        ops = [terms[t](i) for i, t in enumerate(combo)]
+        out.append({"k": "cat", "g": sk("LinearCombination", "ops.LinearCombination", [0.5, -1.5, 2.5], OPS(ops), v="params:" + "-".join(combo))})
+    return out
+
+
 def run(ctx):
     tier = ctx.tier
     only = ctx.only.split(",") if ctx.only else None
@@ -472,6 +492,7 @@ def run(ctx):
             if vs.index(o["g"].get("v")) < 2:
                 keep.append(o)
         objs = keep
+    objs += _extra_objects()
     exprs = [] if (only and "expr" not in only) else O.expression_objects(tier)
     if tier == "quick":  # every 3rd / 4th expression plus every expression with >= 2 parametrized leaves (rebinding cursor)
         par = {"RX0", "RZ1", "PS0", "RX0s", "Herm0"}
